@@ -1104,6 +1104,95 @@ pub fn sc_dec_tuple_v0(input: &[u8]) -> u32 {
     0
 }
 
+
+// ------------------------------------------------------------------ leaf codecs through the real impls
+/// `impl BinarySerializer for T` / `impl BinaryDeserializer for T` of one fixed-width leaf type:
+/// serialize(v) is Ok and appends exactly `expect` (the big-endian bytes of v's bit pattern), and
+/// deserializing those bytes gives a value with the same bit pattern (floats: NaN payloads kept)
+fn leaf_rt<T: desert_core::BinarySerializer + BinaryDeserializer>(v: &T, expect: &[u8], same: fn(&T, &T) -> bool) -> u32 {
+    let mut rec = Rec::new();
+    let r = {
+        let mut ctx = std::mem::ManuallyDrop::new(desert_core::SerializationContext::new(RecRef(&mut rec)));
+        desert_core::BinarySerializer::serialize(v, &mut *ctx)
+    };
+    if r.is_err() {
+        return 1;
+    }
+    if rec.n != expect.len() {
+        return 2;
+    }
+    let mut i = 0;
+    while i < expect.len() {
+        if rec.buf[i] != expect[i] {
+            return 3;
+        }
+        i += 1;
+    }
+    let mut c = std::mem::ManuallyDrop::new(DeserializationContext::new(&rec.buf[..expect.len()]));
+    match <T as BinaryDeserializer>::deserialize(&mut *c) {
+        Ok(w) if same(&w, v) => 0,
+        _ => 4,
+    }
+}
+
+macro_rules! sc_leaf {
+    ($name:ident, $n:expr, $( ($ty:ty, $conv:expr, $same:expr) ),+ ) => {
+        pub fn $name(input: &[u8]) -> u32 {
+            if input.len() < $n {
+                return 0;
+            }
+            let raw = ref_be(input, $n);
+            let mut k = 0u32;
+            $(
+                let v: $ty = $conv(raw);
+                let c = leaf_rt::<$ty>(&v, &input[..$n], $same);
+                if c != 0 {
+                    return 10 * k + c;
+                }
+                k += 1;
+            )+
+            let _ = k;
+            0
+        }
+    };
+}
+
+sc_leaf!(sc_leaf_8, 1,
+    (u8, |r: u128| r as u8, |a: &u8, b: &u8| a == b),
+    (i8, |r: u128| r as u8 as i8, |a: &i8, b: &i8| a == b));
+sc_leaf!(sc_leaf_16, 2,
+    (u16, |r: u128| r as u16, |a: &u16, b: &u16| a == b),
+    (i16, |r: u128| r as u16 as i16, |a: &i16, b: &i16| a == b));
+sc_leaf!(sc_leaf_32, 4,
+    (u32, |r: u128| r as u32, |a: &u32, b: &u32| a == b),
+    (i32, |r: u128| r as u32 as i32, |a: &i32, b: &i32| a == b),
+    (f32, |r: u128| f32::from_bits(r as u32), |a: &f32, b: &f32| a.to_bits() == b.to_bits()));
+sc_leaf!(sc_leaf_64, 8,
+    (u64, |r: u128| r as u64, |a: &u64, b: &u64| a == b),
+    (i64, |r: u128| r as u64 as i64, |a: &i64, b: &i64| a == b),
+    (f64, |r: u128| f64::from_bits(r as u64), |a: &f64, b: &f64| a.to_bits() == b.to_bits()));
+sc_leaf!(sc_leaf_128, 16,
+    (u128, |r: u128| r, |a: &u128, b: &u128| a == b),
+    (i128, |r: u128| r as i128, |a: &i128, b: &i128| a == b));
+
+/// bool: true <-> [1], false <-> [0]; unit: no bytes
+pub fn sc_leaf_bool(input: &[u8]) -> u32 {
+    if input.len() < 1 {
+        return 0;
+    }
+    let v = input[0] & 1 == 1;
+    let e = [if v { 1u8 } else { 0u8 }];
+    let c = leaf_rt::<bool>(&v, &e, |a, b| a == b);
+    if c != 0 {
+        return c;
+    }
+    let c = leaf_rt::<()>(&(), &[], |_, _| true);
+    if c != 0 {
+        return 10 + c;
+    }
+    0
+}
+
 pub type Scenario = fn(&[u8]) -> u32;
 
 /// name, function, input length the harness quantifies over, description
@@ -1147,6 +1236,12 @@ pub const SCENARIOS: &[(&str, Scenario, usize, &str)] = &[
     ("size_calc", sc_size_calc, 4, "SizeCalculator counts exactly the bytes of write_var_u32/_i32 that a recording sink receives, all 2^32 values"),
     ("dec_bytes", sc_dec_bytes, 5, "BOUNDED: bytes::Bytes decoder == reference, all inputs of length 0..=5"),
     ("dec_opt_res", sc_dec_opt_res, 4, "BOUNDED: Option<u16> and Result<u8,u16> decoders == reference, all inputs of length 0..=4"),
+    ("leaf_8", sc_leaf_8, 1, "u8/i8 serialize + deserialize impls: exact byte, round trip, all values"),
+    ("leaf_16", sc_leaf_16, 2, "u16/i16 serialize + deserialize impls: big-endian bytes, round trip, all values"),
+    ("leaf_32", sc_leaf_32, 4, "u32/i32/f32 serialize + deserialize impls: big-endian bytes of the bit pattern, round trip by bit pattern (NaN payloads), all values"),
+    ("leaf_64", sc_leaf_64, 8, "u64/i64/f64 serialize + deserialize impls, all values / bit patterns"),
+    ("leaf_128", sc_leaf_128, 16, "u128/i128 serialize + deserialize impls, all values"),
+    ("leaf_bool", sc_leaf_bool, 1, "bool and () serialize + deserialize impls"),
     ("var_read_any", sc_var_read_any, 6, "read_var_u32 == lenient reference reader on all inputs of length 0..=6"),
 ];
 
